@@ -74,7 +74,7 @@ type c19World struct {
 	nacct  map[string]int
 }
 
-var c19Watched = []int{1, 2, 3, 4, 5, 6, 11, 12, 13, 14, 15, 16, 21, 22, 23, 80, 81, 90}
+var c19Watched = []int{1, 2, 3, 4, 5, 6, 9, 11, 12, 13, 14, 15, 16, 21, 22, 23, 80, 81, 90}
 
 func c19MustExec(t *testing.T, a *chain.App, ctx sdk.Context, what string, msg sdk.Msg) {
 	if class, err, _ := execMsg(a, ctx, msg); class != "ok" {
@@ -171,13 +171,17 @@ func (w *c19World) st() {
 			v := k.GetExternalRewardsLocker(w.ctx, x.id)
 			ep, _ := k.GetEpochTime(w.ctx, v.EpochId)
 			w.tr.p("x %d 0 %d %s %s %d %d", i, c19DenomCode(v.TotalRewards.Denom), v.AvailableRewards.Amount, b2s(v.IsActive), ep.Count, ep.StartingTime)
-		} else {
+		} else if x.kind == 1 {
 			for _, v := range k.GetExternalRewardVaults(w.ctx) {
 				if v.Id == x.id {
 					ep, _ := k.GetEpochTime(w.ctx, v.EpochId)
 					w.tr.p("x %d 1 %d %s %s %d %d", i, c19DenomCode(v.TotalRewards.Denom), v.AvailableRewards.Amount, b2s(v.IsActive), ep.Count, ep.StartingTime)
 				}
 			}
+		} else {
+			v := k.GetExternalRewardLend(w.ctx, x.id)
+			ep, _ := k.GetEpochTime(w.ctx, v.EpochId)
+			w.tr.p("x %d 2 %d %s %s %d %d", i, c19DenomCode(v.TotalRewards.Denom), v.AvailableRewards.Amount, b2s(v.IsActive), ep.Count, ep.StartingTime)
 		}
 	}
 	for d := 1; d <= 5; d++ {
@@ -349,6 +353,8 @@ func (w *c19World) opBegin(dt int64) {
 				tot = lk.DepositedAmount.String()
 			}
 			w.tr.p("xenv %d %s %d%s", i, tot, n, sb.String())
+		} else if x.kind == 2 {
+			w.tr.p("lenv %d %s", i, w.lendEnv(k.GetExternalRewardLend(w.ctx, x.id)))
 		} else {
 			var v rewardstypes.VaultExternalRewards
 			for _, y := range k.GetExternalRewardVaults(w.ctx) {
@@ -840,6 +846,136 @@ func c19ExtRounding(w *c19World, g *rng) {
 	w.opCreateGauge(c19GaugeSpec{denom: "ustake", dep: sdk.NewInt(1000), total: 3, startOff: 500000, durS: 86400, app: w.fx.appL, pool: w.fx.pools[0], creator: 80})
 	for b := 0; b < int(days)+2; b++ {
 		w.opBegin(86401)
+	}
+}
+
+
+// environment of one lend program: what DistributeExtRewardLend collects for it (iter.go 248-283),
+// recomputed with the keepers' exported functions
+func (w *c19World) lendEnv(v rewardstypes.LendExternalRewards) string {
+	k := w.a.Rewardskeeper
+	var sb strings.Builder
+	rd := v.RewardsAssetPoolData
+	if rd == nil || len(rd.AssetId) == 0 {
+		return "0 0 noprice"
+	}
+	assetID := rd.AssetId[0]
+	stats, found := w.a.LendKeeper.GetAssetStatsByPoolIDAndAssetID(w.ctx, rd.CPoolId, assetID)
+	if !found {
+		return "0 0 noprice"
+	}
+	n := 0
+	for _, id := range stats.BorrowIds {
+		bp, found := w.a.LendKeeper.GetBorrow(w.ctx, id)
+		if !found || bp.IsLiquidated {
+			continue
+		}
+		amt, found := k.OraclePriceForRewards(w.ctx, assetID, bp.AmountOut.Amount)
+		if !found {
+			continue
+		}
+		lp, _ := w.a.LendKeeper.GetLend(w.ctx, bp.LendingID)
+		addr, _ := sdk.AccAddressFromBech32(lp.Owner)
+		m, found := k.CheckMinOfBorrowersLiquidityAndBorrow(w.ctx, addr, v.MasterPoolId, rd.CSwapAppId, amt)
+		if !found {
+			continue
+		}
+		n++
+		fmt.Fprintf(&sb, " %d %s", w.acct(lp.Owner), m.BigInt())
+	}
+	price := "noprice"
+	if as, found := w.a.AssetKeeper.GetAssetForDenom(w.ctx, v.TotalRewards.Denom); found {
+		if tw, found := w.a.MarketKeeper.GetTwa(w.ctx, as.Id); found && (tw.IsPriceActive || tw.Twa > 0) {
+			price = fmt.Sprintf("price %d %s", tw.Twa, as.Decimals)
+		}
+	}
+	return fmt.Sprintf("1 %d%s %s", n, sb.String(), price)
+}
+
+func (w *c19World) opLendCreate(cw *c12World, denom string, total sdk.Int, days int64, badPool bool, short bool) {
+	cr := addrN(81)
+	have := bal(w.a, w.ctx, cr, denom)
+	want := total
+	if short {
+		want = total.SubRaw(1)
+	}
+	if have.LT(want) {
+		fund(w.t, w.a, w.ctx, cr, sdk.NewCoins(sdk.NewCoin(denom, want.Sub(have))))
+	} else if have.GT(want) {
+		_ = w.a.BankKeeper.SendCoins(w.ctx, cr, addrN(95), sdk.NewCoins(sdk.NewCoin(denom, have.Sub(want))))
+	}
+	funds := bal(w.a, w.ctx, cr, denom)
+	pool := cw.LendPool
+	if badPool {
+		pool = 77
+	}
+	_, assetOK := w.a.AssetKeeper.GetAssetForDenom(w.ctx, denom)
+	ok := !badPool && assetOK
+	idBefore := w.a.Rewardskeeper.GetExternalRewardsLendID(w.ctx)
+	msg := rewardstypes.NewMsgActivateExternalRewardsLend(cw.LendApp, pool, []uint64{cw.CMST}, cw.LiqApp, 0, sdk.Coin{Denom: denom, Amount: total},
+		int64(cw.LiqPool), days, 1, cr)
+	class, _, _ := execMsg(w.a, w.ctx, msg)
+	w.tr.p("op extcreate 2 %d %s %d 1 %d %s %s %s", c19DenomCode(denom), total, days, w.now.Unix(), funds, b2s(ok), class)
+	if class == "ok" {
+		w.exts = append(w.exts, c19Ext{2, idBefore + 1})
+	}
+	w.st()
+}
+
+// TestC19Lend: lend external reward programs on the world of the C12 fixture (one borrower who farms
+// in the master pool): reward denoms with different oracle prices, 1-3 days, several programs
+func TestC19Lend(t *testing.T) {
+	a, base := newApp(t)
+	tr := newTracer(t, "c19lend.trace")
+	defer tr.close()
+	r := newRng(seed())
+	ncases := envInt("VERIF_CASES", 30)
+	only := envInt("VERIF_CASE", -1)
+	cw := c12Setup(t, a, base)
+	for ci := 0; ci < ncases; ci++ {
+		cs := r.next()
+		if only >= 0 && ci != only {
+			continue
+		}
+		g := newRng(cs)
+		ctx, _ := cw.Ctx.CacheContext()
+		w := &c19World{t: t, a: a, ctx: ctx, tr: tr, now: cw.Ctx.BlockTime(), height: cw.Ctx.BlockHeight(), nacct: map[string]int{}}
+		for _, n := range c19Watched {
+			w.nacct[addrN(n).String()] = n
+		}
+		fund(t, a, w.ctx, addrN(90), sdk.NewCoins(sdk.NewCoin("ucmdx", sdkmath.NewIntWithDecimal(1, 15)), sdk.NewCoin("ucmst", sdkmath.NewIntWithDecimal(1, 15)),
+			sdk.NewCoin("uatom", sdkmath.NewIntWithDecimal(1, 15))))
+		tr.p("case %d lend %d", ci, len(a.Rewardskeeper.GetAllGauges(w.ctx)))
+		w.st()
+		denoms := []string{"ucmdx", "ucmst", "uatom"}
+		ids := map[string]uint64{"ucmdx": cw.CMDX, "ucmst": cw.CMST, "uatom": cw.ATOM}
+		// the reward token's oracle price decides how much is paid per unit of reward value
+		for _, d := range denoms {
+			if g.chance(60) {
+				pr := g.pickU(1000000, 2000000, 500000, 30000000, 999999, 1)
+				setPrice(a, w.ctx, ids[d], pr, true)
+				w.tr.p("env price %d %d 1", c19DenomCode(d), pr)
+			}
+		}
+		np := 1 + g.intn(2)
+		for i := 0; i < np; i++ {
+			d := denoms[g.intn(3)]
+			total := sdk.NewInt(g.pickI(1, 1000000, 123456789, 1000000000000, 7))
+			w.opLendCreate(cw, d, total, g.pickI(1, 1, 2, 3), g.chance(6), g.chance(6))
+			if g.chance(70) { // somebody else's money in the same account
+				w.opDonate(d, sdk.NewInt(int64(1+g.intn(5000000))))
+			}
+		}
+		nb := 4 + g.intn(5)
+		for b := 0; b < nb; b++ {
+			if g.chance(15) {
+				d := denoms[g.intn(3)]
+				pr := g.pickU(1000000, 2000000, 500000, 30000000)
+				setPrice(a, w.ctx, ids[d], pr, g.chance(90))
+				w.tr.p("env price %d %d 1", c19DenomCode(d), pr)
+			}
+			w.opBegin(g.pickI(6, 3600, 84601, 86401, 86401, 90000, 200000))
+		}
 	}
 }
 
